@@ -321,4 +321,4 @@ LEVEL_TEXT = ("sequential reduction of 'every arrival point' to a nondeterminist
               "iteration of Association._run_reactor (answer, flags, notification, kill) and the SCU response iterators (reactor released "
               "before the final item); AST scan: only the reactor consumes the indication.")
 LEVEL_NOTE = "trusted: pyvc, z3, queue model (peek/receive), C04 for the DUL side (AR-2 indication, AR-4/AR-9 response PDU)."
-TECHNIQUE = "deductive: ghost 'indication consumed only where answered' invariant over effect-trace contracts (AST->VC) + exhaustive call-site scan"
+TECHNIQUE = "deductive: ghost 'indication consumed only where answered' invariant over effect-trace contracts (is_release_requested, _wrap_handler, reactor iteration, negotiate_release collision, send_release; AST->VC) + exhaustive call-site scan + re-proved release actions of the state machine (C04)"
